@@ -105,3 +105,46 @@ package cli
 // the time handed to the reconciler: the given time, plus 24h exactly when the record is yesterday's fallback record
 //@ before CloseOpenRange assert typeis(endTime, *klog.time) && klog.off(endTime) == klog.off(time) + ite(shouldTryYesterday && klog.ddn(reconciler.Record.(*klog.record).date) == klog.ddn(yesterday), 1440, 0)
 //@ ensures true
+
+// ---------------------------------------------------------------------------------------------
+// today.go — handle: --now closes the open ranges of *all* records that were read, before they are split into
+// current and other ones (so that Today + Other is the same total that `klog total --now` yields), and the split is
+// handed those same records. Only these two cuts are decided here (`cutsonly`): the table rendering below them and the
+// arithmetic preconditions of Total (known finding F3) are not obligations of this function.
+//@ func handle
+//@ requires opt != nil && nonnil(ctx)
+//@ noframe
+//@ cutsonly
+//@ before ApplyNow bind closed = arg2
+//@ before ApplyNow assert same(arg2, records)
+//@ before splitIntoCurrentAndOther assert same(arg1, closed) && same(arg1, records)
+//@ ensures true
+
+// ---------------------------------------------------------------------------------------------
+// total.go / report.go — the glue of `klog total` and `klog report` (cuts only): --now is applied to exactly the
+// (filtered) records that are evaluated; the report groups those same records after sorting; each row's total is the
+// total of the group stored under the row's hash and the footer's total is that of all records.
+//@ func (*Total).Run
+//@ requires opt != nil && nonnil(ctx)
+//@ noframe
+//@ cutsonly
+//@ before ApplyNow bind closed = arg2
+//@ before ApplyNow assert same(arg2, records)
+//@ before Total assert same(arg0, closed) && same(arg0, records)
+//@ before ShouldTotalSum assert same(arg0, closed)
+//@ ensures true
+
+//@ func (*Report).Run
+//@ requires opt != nil && nonnil(ctx)
+//@ noframe
+//@ cutsonly
+//@ before ApplyNow bind closed = arg2
+//@ before ApplyNow assert same(arg2, records)
+//@ before Sort assert same(arg0, closed) && arg1
+//@ before groupByDate assert same(arg1, records)
+//@ before DateHash assert arg0 == date
+//@ before Total#1 assert same(arg0, recordGroups[hash])
+//@ before ShouldTotalSum#1 assert same(arg0, recordGroups[hash])
+//@ before Total#2 assert same(arg0, records)
+//@ before ShouldTotalSum#2 assert same(arg0, records)
+//@ ensures true
